@@ -260,6 +260,131 @@ def _trans_order(sim, first_paths: list[tuple], second_paths: list[tuple]):
     return order, [pairs[idx].run for idx in sorted(pairs)]
 
 
+def val_ref(code: Optional[str], x: int) -> bool:
+    """validate_arguments family of the target methods: `ne:k` = the argument must differ from k"""
+    if not code:
+        return True
+    name, k = _split(code)
+    if name == "ne":
+        return x != k
+    raise ValueError(code)
+
+
+def val_hw(code: Optional[str]):
+    if not code:
+        return {}
+    name, k = _split(code)
+    assert name == "ne"
+    return {"validate_arguments": lambda data: data != k}
+
+
+class Rig(Elaboratable):
+    """A transformer/connector wired to target `Adapter`s owned by the rig (as test_transformers.py /
+    test_connectors.py do), built either through the constructor (+ `provide`) or through the `create` factory,
+    optionally with `validate_arguments` on the target methods.  `tgt` (a tuple, so that SimpleTestCircuit does not
+    wrap it) lists the target methods; `adapters` maps CompSim paths to the adapters."""
+
+    def __init__(self, kind: str, d: dict):
+        from transactron.lib.adapters import Adapter
+        from transactron.lib import transformers as T, connectors as C
+
+        create = d.get("via") == "create"
+        vkw = val_hw(d.get("val"))
+        self.adapters: dict[tuple, Adapter] = {}
+        self.subs: list = []
+
+        def adapter(path, i, o):
+            a = Adapter(i=i, o=o, **vkw)
+            self.adapters[path] = a
+            self.subs.append(a)
+            return a.iface
+
+        if kind in ("map", "filter", "nonex"):
+            w = d["w"]
+            L = [("data", w)]
+            t = adapter(("target",), L, L)
+            self.tgt = (t,)
+            if kind == "map":
+                it, ot = (L, un_hw(d["ifun"], w)), (L, un_hw(d["ofun"], w))
+                tr = T.MethodMap.create(t, i_transform=it, o_transform=ot) if create else T.MethodMap(L, L, i_transform=it, o_transform=ot)
+            elif kind == "filter":
+                args = (cond_hw(d["cond"], w), {"data": d["def"]})
+                tr = (
+                    T.MethodFilter.create(t, *args, use_condition=bool(d["uc"]))
+                    if create
+                    else T.MethodFilter(L, L, *args, use_condition=bool(d["uc"]))
+                )
+            else:
+                tr = T.NonexclusiveWrapper.create(t) if create else T.NonexclusiveWrapper(L, L)
+            if not create:
+                tr.target.provide(t)
+            if kind == "nonex":
+                self.callers = [tr.method for _ in range(d["k"])]
+            else:
+                self.method = tr.method
+        elif kind in ("product", "tryproduct", "collector"):
+            w, n = d["w"], d["n"]
+            L = [("data", w)]
+            ts = [adapter(("targets", j), [] if kind == "collector" else L, L) for j in range(n)]
+            self.tgt = tuple(ts)
+            if kind == "product":
+                cb = comb_hw(d["comb"], w)
+                tr = T.MethodProduct.create(ts, cb) if create else T.MethodProduct(L, (L,) * n, cb)
+            elif kind == "tryproduct":
+                cb = tcomb_hw(d["comb"], w, n)
+                tr = T.MethodTryProduct.create(ts, cb) if create else T.MethodTryProduct(L, (L,) * n, cb)
+            else:
+                tr = T.Collector.create(ts) if create else T.Collector(n, L)
+            if not create:
+                for m1, m2 in zip(tr.targets, ts):
+                    m1.provide(m2)
+            self.method = tr.method
+        elif kind == "connect":
+            LI, LO = [("data", d["wi"])], [("data", d["wo"])]
+            m1, m2 = adapter(("method1",), LI, LO), adapter(("method2",), LO, LI)
+            self.tgt = (m1, m2)
+            tr = C.ConnectTrans.create(m1, m2) if create else C.ConnectTrans(LI, LO)
+            if not create:
+                tr.method1.provide(m1)
+                tr.method2.provide(m2)
+        elif kind == "crossbar":
+            LI, LO = [("data", d["wi"])], [("data", d["wo"])]
+            a = [adapter(("methods1", i), LI, LO) for i in range(d["n1"])]
+            b = [adapter(("methods2", j), LO, LI) for j in range(d["n2"])]
+            self.tgt = tuple(a + b)
+            tr = C.CrossbarConnectTrans.create(a, b) if create else C.CrossbarConnectTrans(d["n1"], d["n2"], LI, LO)
+            if not create:
+                tr.methods1.provide(a)
+                tr.methods2.provide(b)
+        else:
+            raise ValueError(kind)
+        self.tr = tr
+
+    def elaborate(self, platform):
+        m = TModule()
+        for k, a in enumerate(self.subs):
+            m.submodules[f"tadapter{k}"] = a
+        m.submodules.tr = self.tr
+        return m
+
+
+def _rig_sim(kind: str, d: dict, decl: Optional[str] = None):
+    """CompSim of a `Rig`; the rig's adapters are registered under the usual paths."""
+    from types import SimpleNamespace
+
+    if decl is None:
+        sim, cf = CompSim(lambda: Rig(kind, d)), None
+    else:
+        sim, cf = _with_comps(lambda: Rig(kind, d), decl)
+    for path, a in sim.dut.adapters.items():
+        sim.tbs[path] = SimpleNamespace(adapter=a)
+    return sim, cf
+
+
+def _uses_rig(d: dict) -> bool:
+    return d.get("via") == "create" or bool(d.get("val"))
+
+
 class _CompWrap(Elaboratable):
     """The test circuit plus one competing `AdapterTrans` per target method, declared before or after it."""
 
@@ -291,11 +416,15 @@ def _with_comps(make, decl: str):
     comps: list = []
 
     def wrap(circ, dut):
-        ts = list(dut.targets) if hasattr(dut, "targets") else [dut.target]
+        ts = list(dut.tgt) if hasattr(dut, "tgt") else (list(dut.targets) if hasattr(dut, "targets") else [dut.target])
         comps.extend(TestbenchIO(AdapterTrans.create(t)) for t in ts)
         return _CompWrap(circ, comps, decl == "first")
 
     sim = CompSim(make, wrap=wrap)
+    for path, a in getattr(sim.dut, "adapters", {}).items():
+        from types import SimpleNamespace
+
+        sim.tbs[path] = SimpleNamespace(adapter=a)
     for j, c in enumerate(comps):
         sim.tbs[("comp", j)] = c
     tm = sim.tctx.transaction_manager
@@ -331,6 +460,15 @@ def _build(kind: str, d: dict):
             order = _trans_order(sim, [("targets", i) for i in range(d["n"])], [])[0]
             # the connecting transactions are those that also call forwarder.write; competitors call one method
         return sim, (order, cf)
+    if _uses_rig(d):
+        sim, _ = _rig_sim(kind, d)
+        if kind == "crossbar":
+            return sim, _trans_order(
+                sim, [("methods1", i) for i in range(d["n1"])], [("methods2", j) for j in range(d["n2"])]
+            )
+        if kind == "collector":
+            return sim, _trans_order(sim, [("targets", i) for i in range(d["n"])], [])
+        return sim, None
     return _build_plain(kind, d)
 
 
@@ -743,13 +881,22 @@ def _cfg(kind: str, d: dict) -> tuple[str, dict]:
         d["cf"] = "".join(map(str, _get(kind, d)[1][1]))
     toks = [f"comp={kind}"]
     for k, v in d.items():
-        if k in ("component", "multibit", "cdecl"):
+        if k in ("component", "multibit", "cdecl", "via"):
             continue
         toks.append(f"{k}={','.join(map(str, v)) if isinstance(v, list) else v}")
     return "cfg " + " ".join(toks), d
 
 
+_via_counter: dict[str, int] = {}
+
+
 def _case(kind: str, d: dict, ops: list[str], tag: str) -> Case:
+    if "via" not in d:
+        # build every transformer alternately through its constructor and through its `create` factory
+        # (filter: alternate separately per mode so that both modes see both ways in every run)
+        ck = f"{kind}{d.get('uc', '')}"
+        _via_counter[ck] = _via_counter.get(ck, 0) + 1
+        d = dict(d, via="create" if _via_counter[ck] % 2 == 0 else "ctor")
     cfg, desc = _cfg(kind, d)
     return Case(cfg, ops, desc, tag)
 
